@@ -36,6 +36,9 @@ type c03Case struct {
 	// first under the same root (histograms of one root share cached bucket storage)
 	PreKind string  `json:"pre_kind,omitempty"`
 	Pre     []int64 `json:"pre,omitempty"`
+	// PreSame: "pre" is created from the very slice (same backing array, same length) that is then
+	// refilled with Spec and passed for the histogram under test
+	PreSame bool `json:"pre_same_slice,omitempty"`
 }
 
 var finiteFloats = []float64{0, 1, -1, 2, 0.5, 1.5, 10, 100, -100, 1e-300, -1e-300, 1e300, -1e300,
@@ -110,6 +113,19 @@ func c03Gen(r *Rng, i int, thorough bool) c03Case {
 			c.PreKind = map[bool]string{true: "d", false: "v"}[c.Dur]
 			for a, b := 0, len(c.Pre)-1; a < b; a, b = a+1, b-1 {
 				c.Pre[a], c.Pre[b] = c.Pre[b], c.Pre[a]
+			}
+		}
+		if r.Chance(35) && len(c.Spec) > 0 {
+			// the caller re-uses one slice: other bounds of the same kind and length first
+			c.PreKind = map[bool]string{true: "d", false: "v"}[c.Dur]
+			c.PreSame = true
+			c.Pre = make([]int64, len(c.Spec))
+			for q := range c.Pre {
+				if c.Dur {
+					c.Pre[q] = int64(q+1) * 1000003
+				} else {
+					c.Pre[q] = fbits(float64(q+1) * 0.75)
+				}
 			}
 		}
 		if c.PreKind == "v" {
@@ -278,19 +294,40 @@ func c03Run(c *c03Case) (in []Ev, obs []Ev, fail string) {
 				obs = append(obs, Ev{K: 98})
 			}
 		}()
-		switch c.PreKind {
-		case "v":
-			pb := make(tally.ValueBuckets, len(c.Pre))
-			for i, x := range c.Pre {
-				pb[i] = math.Float64frombits(uint64(x))
+		if c.PreSame && len(c.Pre) == len(c.Spec) {
+			switch bb := b.(type) {
+			case tally.DurationBuckets:
+				for i := range bb {
+					bb[i] = time.Duration(c.Pre[i])
+				}
+				scope.Histogram("pre", bb)
+				for i := range bb {
+					bb[i] = time.Duration(c.Spec[i])
+				}
+			case tally.ValueBuckets:
+				for i := range bb {
+					bb[i] = math.Float64frombits(uint64(c.Pre[i]))
+				}
+				scope.Histogram("pre", bb)
+				for i := range bb {
+					bb[i] = math.Float64frombits(uint64(c.Spec[i]))
+				}
 			}
-			scope.Histogram("pre", pb)
-		case "d":
-			pb := make(tally.DurationBuckets, len(c.Pre))
-			for i, x := range c.Pre {
-				pb[i] = time.Duration(x)
+		} else {
+			switch c.PreKind {
+			case "v":
+				pb := make(tally.ValueBuckets, len(c.Pre))
+				for i, x := range c.Pre {
+					pb[i] = math.Float64frombits(uint64(x))
+				}
+				scope.Histogram("pre", pb)
+			case "d":
+				pb := make(tally.DurationBuckets, len(c.Pre))
+				for i, x := range c.Pre {
+					pb[i] = time.Duration(x)
+				}
+				scope.Histogram("pre", pb)
 			}
-			scope.Histogram("pre", pb)
 		}
 		preMark = log.Len()
 		if c.Sub {
@@ -656,11 +693,11 @@ func (s *c03Sink) add(upper float64, n int64) {
 	s.cnt[upper] += n
 	s.mu.Unlock()
 }
-func (s *c03Sink) Capabilities() tally.Capabilities                       { return caps{true, true} }
-func (s *c03Sink) Flush()                                                 {}
-func (s *c03Sink) ReportCounter(string, map[string]string, int64)         {}
-func (s *c03Sink) ReportGauge(string, map[string]string, float64)         {}
-func (s *c03Sink) ReportTimer(string, map[string]string, time.Duration)   {}
+func (s *c03Sink) Capabilities() tally.Capabilities                     { return caps{true, true} }
+func (s *c03Sink) Flush()                                               {}
+func (s *c03Sink) ReportCounter(string, map[string]string, int64)       {}
+func (s *c03Sink) ReportGauge(string, map[string]string, float64)       {}
+func (s *c03Sink) ReportTimer(string, map[string]string, time.Duration) {}
 func (s *c03Sink) ReportHistogramValueSamples(_ string, _ map[string]string, _ tally.Buckets, _, hi float64, n int64) {
 	s.add(hi, n)
 }
